@@ -1,7 +1,8 @@
 --------------------------- MODULE MCRegistration ---------------------------
 (* Case generation for C18 (S->I): TLC enumerates libraries over a fixed   *)
 (* item vocabulary x all item orders x at most one injected defect x one   *)
-(* or two Add calls, evaluates Registration!Add on each and prints one     *)
+(* or two Add calls (Mode "refuse": two or three, with a refused one in    *)
+(* between), evaluates Registration!Add on each and prints one     *)
 (* REPLAY case per behaviour: the libraries, the specified outcome of each *)
 (* Add and, after a successful Add, every probe with the tag it must       *)
 (* observe.  Names starting with '#' are abstract representatives of a     *)
@@ -11,7 +12,7 @@ EXTENDS Registration, Json, IOUtils
 CONSTANTS UB,       \* use trees (Mode "usetree") have at most UB leaves
           N,        \* maximal number of top-level items of a library
           ND,       \* defects are injected into libraries of at most ND items
-          Mode,     \* "single" | "split" | "readd"
+          Mode,     \* "single" | "split" | "readd" | "dup1" | "dup2" | "sig" | "usetree" | "macro" | "refuse"
           Light     \* TRUE: one representative per defect class
 
 VARIABLE hist
@@ -270,6 +271,108 @@ ExtraTrees == {PathT("a", GroupT(<<NameT("d")>>)),
                PathT("a", GroupT(<<PathT("b", GroupT(<<PathT("q", GroupT(<<NameT("r")>>))>>)), NameT("p")>>))}
 UseTrees == {tr \in UNION {{PathT("a", t) : t \in AT[n]} : n \in 1..UB} : ~HasDup(UsePaths(tr))} \cup ExtraTrees
 
+
+(* ------------------------------------------------------------ refused adds *)
+(* "A refused Add leaves what earlier successful Adds made reachable       *)
+(* unchanged": sequences of two and three Adds (ok refused / ok refused ok  *)
+(* / ok ok refused / ok refused refused) where the refused library has an   *)
+(* item with the NAME of an earlier item (constant, function, type,        *)
+(* module, method, static method, associated constant, use alias; in the   *)
+(* root scope, in the scope of a type, as children of a module that exists)*)
+(* but another value / tag / Rust type / kind, at every position among      *)
+(* items that are new.  After every Add - the refused ones included - all  *)
+(* items of the earlier successful Adds are probed (constants are read:    *)
+(* the probe observes their VALUE).                                         *)
+RBase == <<
+  Mod("ma", <<Fn("f1", <<>>, 0, 1), Const("C1", 0, 2), Mod("n", <<Fn("f2", <<1>>, 0, 3), Const("C5", 0, 14)>>)>>),
+  Type("T", 1, "clone"),
+  Fn("f3", <<0>>, 0, 4),
+  Const("C2", 0, 8),
+  Const("C3", 1, 9),
+  Const("KU", 5, 0),
+  Impl(1, <<Fn("g1", <<1>>, 0, 6), Fn("g2", <<>>, 0, 7), Const("C4", 0, 12)>>),
+  Use(<< <<"ma", "f1">>, <<"ma", "n", "C5">> >>) >>
+RBase1 == SubSeq(RBase, 1, 4)
+RBase2 == SubSeq(RBase, 5, Len(RBase))
+RThird == <<Fn("y1", <<0>>, 0, 48), Const("Y2", 0, 49), Mod("my", <<Const("Y3", 0, 50)>>),
+            Impl(1, <<Const("Y4", 0, 51), Fn("gy", <<1>>, 0, 52)>>)>>
+RExtras  == <<Fn("x1", <<>>, 0, 45), Const("X2", 0, 46)>>
+RSecond  == <<Fn("x3", <<>>, 0, 53), Const("C2", 0, 47)>>          \* a second refused library
+(* earlier names in the root scope: the type of the constant that owns the name, -1 = not a constant *)
+RRootTy == [C2 |-> 0, C3 |-> 1, KU |-> 5, f3 |-> -1, T |-> -1, ma |-> -1, f1 |-> -1, C5 |-> -1]
+RAliases == {"f1", "C5"}
+RImplNames == {"g1", "g2", "C4"}
+OtherTy(t) == IF t = 0 \/ t = -1 THEN 1 ELSE 0
+RCollider(col, name, tty) ==
+  CASE col = "const-value"   -> Const(name, IF tty >= 0 THEN tty ELSE 0, 40)     \* same type, another value
+    [] col = "const-type"    -> Const(name, OtherTy(tty), 41)                    \* another Rust type
+    [] col = "fn"            -> Fn(name, <<>>, 0, 42)
+    [] col = "method"        -> Fn(name, <<1>>, 0, 44)
+    [] col = "type"          -> Type(name, 2, "copy")
+    [] col = "mod"           -> Mod(name, <<Fn("zz", <<>>, 0, 43)>>)
+RShapes == {"ok-ref", "ok-ref-ok", "ok-ok-ref", "ok-ref-ref"}
+RPos == IF Light THEN {1, 3} ELSE {1, 2, 3}
+RCells ==
+  UNION {{[shape |-> sh, tk |-> "root", name |-> n, col |-> col, pos |-> pos]
+            : sh \in RShapes, pos \in RPos,
+              col \in (IF RRootTy[n] = 5 THEN {"const-type", "fn", "type", "mod"} ELSE {"const-value", "const-type", "fn", "type", "mod"})}
+         : n \in DOMAIN RRootTy}
+  \cup {[shape |-> sh, tk |-> "impl", name |-> n, col |-> col, pos |-> pos]
+          : sh \in RShapes, n \in RImplNames, pos \in RPos, col \in {"const-value", "const-type", "fn", "method"}}
+  \cup {[shape |-> sh, tk |-> "modkids", name |-> "ma", col |-> "mod", pos |-> pos] : sh \in RShapes, pos \in RPos}
+InsertAt(s, pos, x) == SubSeq(s, 1, pos - 1) \o <<x>> \o SubSeq(s, pos, Len(s))
+RRefusedLib(c) ==
+  LET it == CASE c.tk = "root"    -> RCollider(c.col, c.name, RRootTy[c.name])
+              [] c.tk = "impl"    -> Impl(1, <<RCollider(c.col, c.name, IF c.name = "C4" THEN 0 ELSE -1)>>)
+              [] c.tk = "modkids" -> Mod("ma", <<Const("C1", 0, 40), Fn("f1", <<>>, 0, 42), Mod("n", <<Const("C5", 0, 44)>>)>>)
+      (* a declaration named like an alias is not a reason to refuse a library: a constant whose name is taken is added *)
+      sure == IF c.tk = "root" /\ c.name \in RAliases THEN <<Const("C3", 1, 54)>> ELSE <<>>
+  IN InsertAt(RExtras, c.pos, it) \o sure
+RLabel(c) == "refuse/" \o c.shape \o "/" \o c.tk \o "/" \o c.name \o "/" \o c.col \o "/" \o ToString(c.pos)
+PlanStep(c, what, lib, last) == [v |-> Variant(RLabel(c) \o "/" \o what, lib), last |-> last]
+RPlan(c) ==
+  CASE c.shape = "ok-ref"     -> <<PlanStep(c, "base", RBase, FALSE), PlanStep(c, "refused", RRefusedLib(c), TRUE)>>
+    [] c.shape = "ok-ref-ok"  -> <<PlanStep(c, "base", RBase, FALSE), PlanStep(c, "refused", RRefusedLib(c), FALSE),
+                                   PlanStep(c, "third", RThird, TRUE)>>
+    [] c.shape = "ok-ok-ref"  -> <<PlanStep(c, "base1", RBase1, FALSE), PlanStep(c, "base2", RBase2, FALSE),
+                                   PlanStep(c, "refused", RRefusedLib(c), TRUE)>>
+    [] c.shape = "ok-ref-ref" -> <<PlanStep(c, "base", RBase, FALSE), PlanStep(c, "refused", RRefusedLib(c), FALSE),
+                                   PlanStep(c, "refused2", RSecond, TRUE)>>
+(* the same through library!: fixed shapes, compiled into harness/src/bin/c18.rs (fn macro_lib) *)
+RMacroShapes == [
+  rbase    |-> RBase,
+  rthird   |-> RThird,
+  rconst   |-> <<Fn("x1", <<>>, 0, 45), Const("X2", 0, 46), Const("C2", 0, 40)>>,
+  rconstty |-> <<Const("C2", 1, 41), Fn("x1", <<>>, 0, 45), Const("X2", 0, 46)>>,
+  rassoc   |-> <<Fn("x1", <<>>, 0, 45), Impl(1, <<Const("C4", 0, 40)>>), Const("X2", 0, 46)>>,
+  rfn      |-> <<Fn("f3", <<>>, 0, 42), Fn("x1", <<>>, 0, 45), Const("X2", 0, 46)>>
+]
+RMacroCells == {[shape |-> sh, m |-> m] : sh \in {"ok-ref", "ok-ref-ok"}, m \in {"rconst", "rconstty", "rassoc", "rfn"}}
+MStep(c, what, m, last) == [v |-> [d |-> "refuse/" \o c.shape \o "/macro/" \o c.m \o "/" \o what, lib |-> RMacroShapes[m], macro |-> m, tree |-> <<>>],
+                            last |-> last]
+RMacroPlan(c) ==
+  IF c.shape = "ok-ref" THEN <<MStep(c, "base", "rbase", FALSE), MStep(c, "refused", c.m, TRUE)>>
+  ELSE <<MStep(c, "base", "rbase", FALSE), MStep(c, "refused", c.m, FALSE), MStep(c, "third", "rthird", TRUE)>>
+RPlans == {RPlan(c) : c \in RCells} \cup {RMacroPlan(c) : c \in RMacroCells}
+
+(* after a refused Add the probes are those of the runtime Registration!Refused gives: every item of the *)
+(* earlier successful Adds, with the tag / value / type it had                                            *)
+REntry(v, a, last) ==
+  [last |-> last, after |-> a.out = "Err"] @@
+  [Entry(v, a) EXCEPT !.tys    = IF a.out = "Err" THEN TyList(rt) ELSE TyList(a.rt),
+                      !.probes = IF a.out = "Err" THEN ToSeq(PositiveProbes(Refused(rt, a))) ELSE ToSeq(PositiveProbes(a.rt))]
+RNext ==
+  /\ Mode = "refuse"
+  /\ valid
+  /\ (hist # <<>> => ~hist[Len(hist)].last)
+  /\ \E pl \in RPlans :
+        /\ Len(hist) < Len(pl)
+        /\ \A i \in 1..Len(hist) : hist[i].defect = pl[i].v.d
+        /\ LET st == pl[Len(hist) + 1]
+               a  == Analyse(rt, st.v.lib) IN
+           /\ Add(st.v.lib, IF a.out = "Err" THEN "err" ELSE "ok")
+           /\ hist' = Append(hist, REntry(st.v, a, st.last))
+
 MCInit == Init /\ hist = <<>>
 
 First ==
@@ -308,11 +411,12 @@ Second ==
               /\ hist[1].lib = BuildLib(DupFirst(c))
               /\ Step(Variant(DupLabel(c, "two-adds"), BuildLib(DupSecond(c))))
 
-MCNext == First \/ Second
+MCNext == First \/ Second \/ RNext
 MCSpec == MCInit /\ [][MCNext]_mcvars
 
 (* a behaviour is complete when no further Add follows *)
 Complete ==
+  IF Mode = "refuse" THEN hist # <<>> /\ hist[Len(hist)].last ELSE
   \/ Len(hist) = 2
   \/ Len(hist) = 1 /\ (Mode \in {"single", "macro", "dup1", "usetree", "sig"} \/ ~valid \/ outcome # "Ok")
 Emit == Complete => PrintT(<<"REPLAY", ToJson([mode |-> Mode, adds |-> hist])>>)
